@@ -4,7 +4,7 @@
 From V.Lib Require Import Base Hex.
 From V.Gen Require Import C11Consts.
 From V.Gen Require Import C11Legacy.
-From V.C11 Require Import Model Spec Tab Eqb Legacy CorrLegacy Gap CorrGap Corr Wf ProofsAddr ProofsCodec ProofsDecode ProofsFind ProofsLegacy ProofsGap Bridge BridgeA BridgeB Strings.
+From V.C11 Require Import Model Spec Tab Eqb Legacy CorrLegacy Gap CorrGap Extra CorrExtra Corr Wf ProofsAddr ProofsCodec ProofsDecode ProofsFind ProofsLegacy ProofsGap ProofsNt ProofsUa Bridge BridgeA BridgeB BridgeC Strings.
 Local Open Scope N_scope.
 
 (* ---------------------------------------------------------------------------------------- *)
@@ -312,7 +312,7 @@ Proof. exact generate_gap_addresses_nothing. Qed.
 
 Theorem C11_agree_implies_property : forall c,
   wf_case c = true -> known_class c = 0 -> run_case c = true -> prop_case c = true.
-Proof. exact agree_implies_property. Qed.
+Proof. exact BridgeC.agree_implies_property. Qed.
 
 (* ---------------------------------------------------------------------------------------- *)
 (** ** find_address: termination and fuel *)
@@ -374,6 +374,55 @@ Theorem C11_uivk_decode_total : forall O net i,
   (forall x, dec_t_ivk O x <> OPanic) -> (forall x, dec_s_ivk O x <> OPanic) -> (forall x, dec_o_ivk O x <> OPanic) ->
   uivk_decode O net i <> Panic.
 Proof. exact uivk_decode_total. Qed.
+
+(* ---------------------------------------------------------------------------------------- *)
+(** ** unified addresses on the decode path (TryFrom<unified::Address>, to_zcash_address) *)
+
+Theorem C11_ua_decode_exact_receivers : forall doa dsa l a,
+  addr_container l -> ua_try_from doa dsa l = Ok a ->
+  canon_on doa (uad_o a) -> canon_on dsa (uad_s a) ->
+  ua_receivers a = l /\ ua_to_items a = Ok l.
+Proof. exact ua_roundtrip. Qed.
+
+Theorem C11_ua_decode_reencodes : forall doa dsa l a,
+  addr_container l -> ua_try_from doa dsa l = Ok a -> ua_to_items a = Ok (ua_receivers a).
+Proof. exact ua_reencodes. Qed.
+
+Theorem C11_ua_decode_rejects_only_bad_receivers : forall doa dsa l o s t unk,
+  ua_loop doa dsa l o s t unk = Err tt ->
+  existsb (fun it : item => ((fst it =? 3) && match doa (snd it) with ONone => true | _ => false end)
+                            || ((fst it =? 2) && match dsa (snd it) with ONone => true | _ => false end)) l = true.
+Proof. exact ua_loop_err. Qed.
+
+(* ---------------------------------------------------------------------------------------- *)
+(** ** viewing keys in a build without `transparent-inputs` (the default of zcash_keys) *)
+
+Theorem C11_ufvk_nt_decode_canonical : forall O net hrp raw k,
+  is_bytes raw = true -> ufvk_decode_nt O net (Bech hrp (Some raw)) = Ok k ->
+  canon_on (dec_s_fvk O) (fvk_s k) -> canon_on (dec_o_fvk O) (fvk_o k) ->
+  ufvk_encode net k = Ok (hrp, raw).
+Proof. exact ufvk_decode_nt_canonical. Qed.
+
+Theorem C11_uivk_nt_decode_canonical : forall O net hrp raw k,
+  is_bytes raw = true -> uivk_decode_nt O net (Bech hrp (Some raw)) = Ok k ->
+  canon_on (dec_s_ivk O) (ivk_s k) -> canon_on (dec_o_ivk O) (ivk_o k) ->
+  uivk_encode net k = Ok (hrp, raw).
+Proof. exact uivk_decode_nt_canonical. Qed.
+
+Theorem C11_ufvk_nt_keeps_transparent_item : forall O net hrp raw k,
+  is_bytes raw = true -> ufvk_decode_nt O net (Bech hrp (Some raw)) = Ok k ->
+  net < 3 /\ hrp = hrp_of KFvk net
+  /\ exists t u s1 o1,
+       fvk_t k = None /\ fvk_unknown k = oapp (option_map (pair 0) t) ++ u /\ unknown_ok u
+       /\ has_non_transparent (fvk_s k) (fvk_o k) u = true
+       /\ rel (dec_s_fvk O) s1 (fvk_s k) /\ rel (dec_o_fvk O) o1 (fvk_o k)
+       /\ raw = container_raw hrp (canon_items t s1 o1 u).
+Proof. exact ufvk_decode_nt_sound. Qed.
+
+Theorem C11_ufvk_nt_decode_total : forall O net i,
+  dinput_ok i -> (forall x, dec_s_fvk O x <> OPanic) -> (forall x, dec_o_fvk O x <> OPanic) ->
+  ufvk_decode_nt O net i <> Panic.
+Proof. exact ufvk_decode_nt_total. Qed.
 
 (* ---------------------------------------------------------------------------------------- *)
 (** ** string level: Bech32m, F4Jumble, Bech32 and Base58Check from the proved C10 model
